@@ -20,6 +20,12 @@ def build_root(d, keys, r, base, tag):
         dels["root"] = metadata.rule(rk, d["rt"])
     if d["type"] != "root":
         dels = {"pkg_mgr": metadata.rule([keys.pub[1]], 1), **({"root": dels["root"]} if "root" in dels else {})}      # (hasroot says whether a rule for "root" is there)
+    if r.random() < 0.35:
+        # further roles under names that resemble the two built-in ones (older spellings, file names, other normal forms), each with a rule
+        # that ANY signature present would satisfy: only the rule filed under exactly "root" is the root rule
+        easy = metadata.rule([keys.pub[k] for k in sorted(keys.pub) if k >= 1], 1)
+        for nm in r.sample(["root.json", "Root", "root ", "ROOT", "1.root", "root.1", "roots", "\uff52oot", "key_mgr.json", "default", "*"], r.choice([1, 2, 3])):
+            dels[nm] = copy.deepcopy(easy)
     doc = metadata.delegating_doc(d["type"], base + d["ver"], dels, r, tag=tag)
     metadata.apply_signed(doc, d["wfc"], r)
     return doc
